@@ -8,6 +8,7 @@ import Driver.Util
 import Saltpack.Model.Stream
 import Saltpack.Model.Classify
 import Saltpack.Model.SpecDecode
+import Saltpack.Model.SignReader
 
 open Saltpack
 
@@ -158,13 +159,27 @@ def handle (toks : List String) : Option String :=
   | ["st.chunker", _kind, bs, ma, lens] =>
     match bs.toNat?, ma.toInt?, parseCaps lens with
     | some bs, some ma, some ls =>
-      let ws := ls.map zeros
+      -- position-dependent plaintext (as the harness writes), split by `ls`
+      let total := ls.foldl (· + ·) 0
+      let whole : Bytes := (List.range total).map (fun i => UInt8.ofNat (i ^^^ (i >>> 8) ^^^ ((i >>> 16) * 7)))
+      let ws := (ls.foldl (fun (acc : List Bytes × Bytes) n => (acc.1 ++ [acc.2.take n], acc.2.drop n)) ([], whole)).1
       let (c, maxBuf) := ws.foldl (fun (acc : Chunker × Nat) w =>
           let c' := acc.1.write w; (c', max acc.2 c'.buf.length)) (({ bs := bs } : Chunker), 0)
       let plan := c.close ⟨ma, 0⟩
-      let same := plan == Encrypt.chunkPlan ⟨ma, 0⟩ bs ws.flatten
+      let same := plan == Encrypt.chunkPlan ⟨ma, 0⟩ bs whole
       some s!"ok plan={",".intercalate (plan.map (fun p => s!"{p.1.length}/{p.2}"))} maxbuf={maxBuf} same={same}"
     | _, _, _ => none
+  | ["sig.verifydetachedr", _form, valid, lsig, sigmsg, scr] =>
+    -- `_form` (b|a): binary or armored signature — the same packets either way
+    match mkValidator valid, ofHex sigmsg, parseScript scr, mkKeyring [] "none" "nil" "nil" lsig with
+    | some valid, some sigmsg, some src, some kr =>
+      match Wire.splitDetached sigmsg with
+      | .unmodelled w => some s!"unmodelled {w.replace " " "_"}"
+      | .ok (hr, sr) =>
+        match Sign.verifyDetachedReader RealPrims valid kr hr sr src with
+        | .ok k => some s!"res ok signer={toHex k}"
+        | .error e => some s!"res {showErr e} signer=-"
+    | _, _, _, _ => none
   | ["st.enc", e, sink, writes] =>
     match encByName e, hexList writes with
     | some enc, some ws =>
